@@ -365,7 +365,7 @@ func helperInputs(lens []int, seed int64) [][]F {
 			if k > 0 && rng.Intn(3) == 0 {
 				in[i][k] = in[i][k-1]
 			} else {
-				in[i][k] = F(rng.Intn(10))
+				in[i][k] = F(rng.Intn(14) - 4) // -4..9: negatives and zero included
 			}
 		}
 	}
